@@ -678,8 +678,32 @@ def help_siblings(chk, program, rule='HELP-SIB'):
                 found = {k: show(_strip_int(v, ex.params[0])) for k, v in kws.items()}
     s = '$s'
     exp = {'hour': f"({s} // 3600)", 'minute': f"(({s} % 3600) // 60)", 'second': f"({s} % 60)"}
-    chk.check(found == exp, rule, 'decode_time-decomposition', file=UT, line=fn.lineno, expected=exp, found=found,
-              detail='inverse of 3600*h + 60*m + s')
+    if found == exp:
+        chk.ok(rule, 'decode_time-decomposition', file=UT, line=fn.lineno, expected=exp, found=found, detail='inverse of 3600*h + 60*m + s')
+    else:
+        # another spelling (divmod, nested divisions): the three terms are functions of one integer on the finite domain 0..86399 -- evaluated on all of it
+        from . import teval
+        terms = {}
+        for ev in ex.events:
+            if ev[0] == 'return' and ev[2][0] == 'call' and ev[2][1] == ('name', 'time'):
+                kws = dict(ev[2][3])
+                if all(k in kws for k in ('hour', 'minute', 'second')) and not all(sym.is_const(v) for v in kws.values()):
+                    terms = {k: _strip_int(kws[k], ex.params[0]) for k in ('hour', 'minute', 'second')}
+        bad = None
+        if not terms:
+            chk.unknown(rule, 'decode_time-decomposition', 'return time(hour=.., minute=.., second=..) not found', UT, fn.lineno)
+        else:
+            try:
+                for sec in range(86400):
+                    m = teval.Model(names={'$s': sec})
+                    got = (teval.ev(terms['hour'], m), teval.ev(terms['minute'], m), teval.ev(terms['second'], m))
+                    if got != (sec // 3600, (sec % 3600) // 60, sec % 60):
+                        bad = (sec, got)
+                        break
+                chk.check(bad is None, rule, 'decode_time-decomposition', file=UT, line=fn.lineno, expected='hour, minute, second of every second of the day 0..86399',
+                          found='ok (all 86400 values)' if bad is None else f"second {bad[0]} -> {bad[1]}", detail='inverse of 3600*h + 60*m + s')
+            except teval.EvalUnknown as u:
+                chk.unknown(rule, 'decode_time-decomposition', f"terms not evaluable: {u}", UT, fn.lineno)
 
 def _strip_int(t, p):
     """int(param) -> $s"""
